@@ -28,17 +28,17 @@ Proof. exists "../outside". eexists. split; [|split]; vm_compute; reflexivity. Q
 (* put into such a run: the pre-existing file outside the root was overwritten and removed by the rollback *)
 Lemma outside_put_refuted_without_fix_p :
   exists run s', fget (fs st0) sent0 = Some 2%N
-    /\ step_v false st0 (Put 1 (fmt run) ".yaml" 9) = (s', Refused RuntimeErr)
+    /\ step_v false false st0 (Put 1 (fmt run) ".yaml" 9) = (s', Refused RuntimeErr)
     /\ fget (fs s') sent0 = None /\ inside sent0 = false.
 Proof. exists "%2E%2E/sentinel". eexists. conj; vm_compute; reflexivity. Qed.
 
 (* ingest(copy) into such a run SUCCEEDED: a file outside the root was overwritten; pruning the dataset removed it *)
 Lemma outside_ingest_refuted_without_fix_p :
   exists run s1,
-    step_v false st0 (Ingest Copy [1%N] (fmt run) ".yaml" stage0) = (s1, Done)
+    step_v false false st0 (Ingest Copy [1%N] (fmt run) ".yaml" stage0) = (s1, Done)
     /\ fget (fs st0) sent0 = Some 2%N /\ fget (fs s1) sent0 = Some 1%N
     /\ recs_inside s1 = false
-    /\ fget (fs (fst (step s1 (Prune [1%N])))) sent0 = None.
+    /\ fget (fs (fst (step_v false false s1 (Prune [1%N])))) sent0 = None.
 Proof. exists "%2E%2E/sentinel". eexists. conj; vm_compute; reflexivity. Qed.
 
 (* ---- with df0ecd0: a text whose RESOLVED location is not under the root is refused before anything happens ------ *)
